@@ -21,6 +21,7 @@ def handle : List String → String
     let r := (pIdent ref).norm
     s!"duck={encOptStr (duckFind st r)}\tsf={encOptStr (sfFind st r)}"
   | ["var", a, b] => s!"set={encStr (setKey (pIdent a))}\tunset={encStr (unsetKey (pIdent b))}"
+  | ["settag", raw] => s!"settag={encBool (rawHasSetTag (decStr raw))}"
   | ["then", raw] => s!"delete={encBool (thenIsDelete (decStr raw))}"
   | _ => "bad-op"
 
